@@ -456,4 +456,13 @@ def replay(R, payload):
     case = payload.get("case", {})
     if "count" in case:
         return oracle_readable(case["count"], readable_count(case["count"])) is not None
-    return True
+    # every other case: the generators are deterministic in the recorded seed and tier, so the recorded run is
+    # executed again and the recorded kind of failure is looked for on the current tree
+    import random
+    R.tier = payload.get("tier", R.tier)
+    R.rng = random.Random(f"{R.pid}:{payload.get('seed', 0)}")
+    run(R)
+    want = payload.get("what")
+    if payload.get("kind") == "property-violation":
+        return any(v["what"] == want for v in R.violations) if want else bool(R.violations)
+    return bool(R.violations or R.disagreements)
